@@ -54,13 +54,15 @@ PROPS["C20"] = dict(
         "every run by the differential mode c20 (return value of every Add*, sorted contents of every Search/All, absence of panic)",
         "list-of-accepted-items specification lean/Zrnt/Pool/Spec.lean",
         "Go harness go/internal/pool (generator, rendering; attestation data identified by (slot, index, target epoch, tag))",
+        "verif hook /repo/eth2/pool/verif_export.go (build tag verif, add-only): read-only snapshot of the six SyncCommitteePool buffers",
         "hash-tree-root of AttestationData / AttesterSlashing is injective (the model uses the data itself as map key)",
     ],
     assumptions=[
         "single-threaded use (locking of the pools belongs to C17)",
         "signatures are opaque to the pools (they are not verified there); committees are supplied by the caller",
-        "the contents of SyncCommitteePool buffers are not observable through the exported API (PackContribution/PackAggregate are stubs): "
-        "the correspondence sees accept/reject/panic only; buffer contents are covered by the theorems about the model alone",
+        "the contents of the SyncCommitteePool buffers cannot be read through the exported API (PackContribution/PackAggregate are stubs): "
+        "the correspondence reads them through the add-only `verif` hook eth2/pool/verif_export.go (op `sdump`); MinAggregates.Extra is never read by "
+        "any exported function and is covered by the model theorems only",
     ],
     manifest=dict(
         level_text="Lean theorems over ALL operation sequences on the five pools (no panic, map consistency, refinement of the list-of-accepted-items "
